@@ -8,6 +8,7 @@ import (
 	"encoding/json"
 	"fmt"
 	"sort"
+	"sync/atomic"
 
 	"github.com/maruel/panicparse/v2/stack"
 
@@ -21,6 +22,9 @@ func init() {
 	checks["C05"] = check{level: "exploration", run: func(r *core.Run) { aggEngine(r) }, replay: replayAgg}
 	checks["C12"] = check{level: "exploration", run: func(r *core.Run) { aggEngine(r) }, replay: replayAgg}
 }
+
+// editTick samples the edited-snapshot step for C05 (one snapshot in four; always in a replay).
+var editTick atomic.Int64
 
 var allLevels = []stack.Similarity{stack.ExactFlags, stack.ExactLines, stack.AnyPointer, stack.AnyValue}
 var levelNames = []string{"ExactFlags", "ExactLines", "AnyPointer", "AnyValue"}
@@ -138,6 +142,44 @@ func aggEvalSnap(r *core.Run, s *stack.Snapshot, c *aggCase) [4][][]int {
 				if k, w := mon.CheckBucketSignature(b, members); k != "" {
 					report(k, fmt.Sprintf("%s bucket ids %v: %s", tag, b.IDs, w))
 					return parts
+				}
+			}
+		}
+	}
+	// A snapshot is a plain exported struct: a caller may filter its goroutines, or work on a copy of the struct
+	// with another goroutine list, and aggregate again. Each aggregation answers for the goroutines the snapshot
+	// holds at that moment.
+	if len(s.Goroutines) >= 2 && (r.Prop == "C04" || (r.Prop == "C05" && (r.ReplayMode || editTick.Add(1)%4 == 0))) {
+		cp := *s
+		cp.Goroutines = append([]*stack.Goroutine{}, s.Goroutines[1:]...)
+		edited := []*stack.Snapshot{&cp}
+		s.Goroutines = s.Goroutines[:len(s.Goroutines)-1]
+		edited = append(edited, s)
+		for ei, es := range edited {
+			for li, lvl := range allLevels {
+				var a *stack.Aggregated
+				var panicked any
+				func() {
+					defer func() { panicked = recover() }()
+					a = es.Aggregate(lvl)
+				}()
+				r.Eval(1)
+				tag := levelNames[li] + []string{"/copy-without-first", "/last-goroutine-removed"}[ei]
+				if panicked != nil {
+					report("panic/"+tag, fmt.Sprintf("Aggregate panicked: %v", panicked))
+					return parts
+				}
+				switch r.Prop {
+				case "C04":
+					if k, w := mon.CheckPartition(es, a); k != "" {
+						report(k+"/edited-snapshot", fmt.Sprintf("%s: %s", tag, w))
+						return parts
+					}
+				case "C05":
+					if got, want := mon.GotPartition(a), mon.RefPartition(es, lvl); !mon.PartEq(got, want) {
+						report("edited-snapshot/"+levelNames[li], fmt.Sprintf("%s: buckets %v, similarity classes %v", tag, got, want))
+						return parts
+					}
 				}
 			}
 		}
